@@ -1,3 +1,4 @@
+import DaliVerif.Props.GearCmds
 import DaliVerif.Proofs.GearSeqC07k
 /-!
 # C07 — commissioning terminates and assigns distinct, permitted short addresses
@@ -33,6 +34,17 @@ more rounds — they need not be (the re-draw hazard; last `example` below); the
 -/
 namespace DaliVerif.Props.C07
 open DaliVerif GearSeq
+
+/-- the commands of these sequences are flagged `sendtwice` exactly where the standard requires a repetition
+(regenerated table; shared statement `Props.GearCmds`) -/
+theorem cmd_sendtwice_gen :
+    GearCmds.sampleCmds.map (fun c => (c.cls, c.twiceRequired)) =
+      Gen.GearSeqEnums.cmdSamples.map (fun r => (r.1, r.2.2.2.1)) := GearCmds.cmd_sendtwice_gen
+
+theorem cmd_frames_gen :
+    GearCmds.sampleCmds.map (fun c => (c.cls, c.frame, c.devicetype)) =
+      Gen.GearSeqEnums.cmdSamples.map (fun r => (r.1, r.2.1, r.2.2.1)) := GearCmds.cmd_frames_gen
+
 
 /-- **findNext_spec** — for every list `R` of random addresses of the enabled units, all `≥ low`,
 and every interval `low ≤ high` of width `< 2^depth`: the search returns `none` iff no address is
